@@ -203,20 +203,23 @@ def rule_repr_err(ctx, cd):
                 ctx.ob(R, t.rel, f"{lang}: nested deserializer is called", False, "call vanished")
                 continue
             adv = [unplaceholder(p, e[2]) for e in ev if e[1] == "advance"]
+            adv_raw = [e[2].strip() for e in ev if e[1] == "advance"]
+            sz_ph = _size_var_of_call(lang, text)     # the size variable is the one handed to the nested deserializer
             if deli:
                 hdr = [e for e in ev if e[1] == "macro" and e[2] == "_deserialize_integer"]
                 errs = [e for e in ev if e[1] == "ret_err" and "DELIMITER" in e[2].upper().replace("_", "").replace("BADDELIMITERHEADER", "DELIMITER")]
                 ok = bool(hdr) and bool(errs) and hdr[0][0] < errs[0][0] < nested[0]
                 ctx.ob(R, t.rel, f"{lang}: delimiter header read -> checked against the remaining size -> nested call", ok,
                        "" if ok else "the nested deserializer runs before the header has been validated")
-                ok = adv == ["{ref_delimiter} * 8"]
-                ctx.ob(R, t.rel, f"{lang}: cursor advances by the stored delimiter header value", ok, "" if ok else f"advances {adv}: implicit truncation of nested objects is lost")
-                # the stored value is a const copy taken before the nested call
+                # the stored value is a const copy of the size variable taken before the nested call
                 m = re.search(r"const \S+ (Pz\d+z) = (Pz\d+z);", text)
-                ok = m is not None and p.xs_of(m.group(1)) == "ref_delimiter" and p.xs_of(m.group(2)) == "ref_size_bytes" and m.start() < nested[0]
+                ok = m is not None and sz_ph is not None and m.group(2) == sz_ph and m.start() < nested[0]
                 ctx.ob(R, t.rel, f"{lang}: the header value is saved before the nested call overwrites the size variable", ok, "")
+                saved = m.group(1) if m else None
+                ok = saved is not None and len(adv_raw) == 1 and re.fullmatch(rf"{saved} \* 8U?", adv_raw[0]) is not None
+                ctx.ob(R, t.rel, f"{lang}: cursor advances by the stored delimiter header value", ok, "" if ok else f"advances {adv}: implicit truncation of nested objects is lost")
             else:
-                ok = adv == ["{ref_size_bytes} * 8"]
+                ok = sz_ph is not None and len(adv_raw) == 1 and re.fullmatch(rf"{sz_ph} \* 8U?", adv_raw[0]) is not None
                 ctx.ob(R, t.rel, f"{lang}: sealed nested object: cursor advances by the consumed size", ok, "" if ok else f"advances {adv}")
     rule_nested_bound(ctx, cd, "R-C02-NESTED-BOUND")
     # python
@@ -228,6 +231,36 @@ def rule_repr_err(ctx, cd):
         ctx.ob(R, tp.rel, f"py: {what} raises FormatError", ok, "")
 
 
+def _size_var_of_call(lang, text):
+    if lang == "c":
+        m = re.search(r"_deserialize_ ?\( ?&Pz\d+z, &buffer\[offset_bits / 8U\], &(Pz\d+z) ?\)", text)
+    else:
+        m = re.search(r"\bdeserialize ?\( ?Pz\d+z, in_buffer\.subspan\(0U?, (Pz\d+z)\) ?\)", text)
+    return m.group(1) if m else None
+
+
+def _size_var_bounded(lang, text, deli):
+    if deli:
+        m = re.search(r"if \( ?\(?(Pz\d+z)(?: \* 8U\))? > [^{;]*\) ?\{ ?return -\S*(?:BAD_DELIMITER_HEADER|BadDelimiterHeader)", text)
+    elif lang == "c":
+        m = re.search(r"\bPz\d+z (Pz\d+z) = \(Pz\d+z\) ?Pz\d+z;", text)
+    else:
+        m = re.search(r"\bPz\d+z (Pz\d+z) = in_buffer\.size\(\) / 8U;", text)
+    return m.group(1) if m else None
+
+
+def _remaining_phs(cd, p):
+    """placeholders of the path that stand for the set-block holding `capacity_bytes - min(offset_bits / 8, capacity_bytes)`"""
+    m2 = cd.macro("c", "des", "_deserialize_composite")
+    names = []
+    for b in m2.find_all(cd.N.AssignBlock):
+        if isinstance(b.target, cd.N.Name):
+            btxt = _codec.squash("".join(d.data for d in b.find_all(cd.N.TemplateData)))
+            if btxt == "(capacity_bytes - nunavutChooseMin((offset_bits / 8U), capacity_bytes))":
+                names.append(b.target.name)
+    return [n for n, _e in p.ph if p.xs_of(n) in names]
+
+
 def rule_nested_bound(ctx, cd, RB):
     ctx.rule(RB, "the nested deserializer of a composite receives a window bounded by the delimiter header value (sealed: by the "
                  "remaining size): C passes `&<size var>` holding that value; C++ passes in_buffer.subspan(0, <size var>)")
@@ -235,8 +268,8 @@ def rule_nested_bound(ctx, cd, RB):
         t = cd.tmpl(lang, "des")
         for p in cd.paths(lang, "des", "_deserialize_composite"):
             text = cd.text(lang, p)
-            sz = p.name_of("ref_size_bytes")
             deli = ("(t is DelimitedType)", True) in p.conds
+            sz = _size_var_bounded(lang, text, deli)   # the variable that was bounded (header check / remaining size)
             if lang == "c":
                 m = re.search(r"_deserialize_ ?\( ?&(Pz\d+z), &buffer\[offset_bits / 8U\], &(Pz\d+z) ?\)", text)
                 ok = m is not None and m.group(2) == sz
@@ -254,7 +287,7 @@ def rule_nested_bound(ctx, cd, RB):
                     okh = cm is not None and bool(hdr) and cm.group(1) == sz and cm.start() > hdr[0]
                     if okh:
                         x = cm.group(2).strip()
-                        if p.xs_of(x) == "remaining_bytes":
+                        if x in _remaining_phs(cd, p):
                             pass  # the set-block expands in place: evaluated at the comparison
                         else:
                             decl = [d.start() for d in re.finditer(rf"\b{re.escape(x)} ?= ", text)]
@@ -266,12 +299,8 @@ def rule_nested_bound(ctx, cd, RB):
                        "" if okh else "the bound is evaluated before the header bytes are consumed (or against another quantity): a header up to "
                        "4 bytes too large is accepted and the nested deserializer reads past the end of the buffer")
             if lang == "c" and not deli:
-                rem = p.name_of("remaining_bytes")
-                m2 = cd.macro("c", "des", "_deserialize_composite")
-                blocks = [b for b in m2.find_all(cd.N.AssignBlock) if isinstance(b.target, cd.N.Name) and b.target.name == "remaining_bytes"]
-                btxt = _codec.squash("".join(d.data for b in blocks for d in b.find_all(cd.N.TemplateData)))
-                ok2 = rem is not None and re.search(rf"{sz} = \([^)]*\) ?{rem};", text) is not None and \
-                    btxt == "(capacity_bytes - nunavutChooseMin((offset_bits / 8U), capacity_bytes))"
+                rems = _remaining_phs(cd, p)
+                ok2 = sz is not None and any(re.search(rf"{sz} = \([^)]*\) ?{rem};", text) is not None for rem in rems)
                 ctx.ob(RB, t.rel, "c: sealed nested object gets the remaining bytes (capacity - min(offset, capacity))", ok2, "")
 
 
